@@ -180,7 +180,7 @@ type cdesc struct {
 	Value   string `json:"value"`
 }
 
-var variants = []string{"n0", "n1", "n2", "first-field-absent", "unknown-field"}
+var variants = []string{"n0", "n1", "n2", "first-field-absent", "unknown-field", "later-elements-lack-first-field", "later-elements-lack-last-field"}
 
 func buildValue(s *tbin.Shape, variant string) *tbin.Val {
 	g := &tbin.Gen{}
@@ -199,8 +199,33 @@ func buildValue(s *tbin.Shape, variant string) *tbin.Val {
 		v := g.Build(s, 1)
 		addUnknown(v)
 		return v
+	case "later-elements-lack-first-field", "later-elements-lack-last-field":
+		// heterogeneous container elements: element 0 of every list / set / map is complete, the later ones lack
+		// a field (per-element state, e.g. a requiredness bitmap, must not survive from one element to the next)
+		v := g.Build(s, 3)
+		dropInLater(v, variant == "later-elements-lack-first-field", false)
+		return v
 	}
 	panic("variant")
+}
+
+func dropInLater(v *tbin.Val, first, drop bool) {
+	if v.T == tbin.STRUCT && len(v.Fs) > 0 && drop {
+		if first {
+			v.Fs = v.Fs[1:]
+		} else {
+			v.Fs = v.Fs[:len(v.Fs)-1]
+		}
+	}
+	for i, e := range v.L {
+		dropInLater(e, first, drop || i > 0)
+	}
+	for i, e := range v.K {
+		dropInLater(e, first, drop || i > 0)
+	}
+	for _, f := range v.Fs {
+		dropInLater(f.V, first, drop)
+	}
 }
 
 func dropFirst(v *tbin.Val) {
